@@ -27,7 +27,7 @@ def c17(run):
         "coap_subscribe.c): decides the structural clauses 'a stream is only read/written if its open mode allows it' and, per "
         "updater, 'only the .tmp copy is written, the real file is never opened truncating, rename() is reached only after a "
         "flush/close of the .tmp stream whose tested result is success'. These are necessary for 'old or new complete state "
-        "after a crash'; restart behaviour and Observe counter values are NOT decided. A record that is only copied into the new file is written back with exactly the variables the read call of that loop filled (R-PERSIST copy-through).")
+        "after a crash'; restart behaviour and Observe counter values are NOT decided. A record that is only copied into the new file is written back with exactly the variables the read call of that loop filled (R-PERSIST copy-through). No remove()/unlink() is applied to the destination of a function's rename() (one atomic step).")
 
 
 def c13(run):
@@ -82,7 +82,7 @@ def c18(run):
         "given its own buffer (R-SHALLOW-ALIAS); a record allocated in a function is not released with the raw allocator call while fields of it still "
         "hold objects created on that path (R-HOLDER-LEAK); strings, binaries, option lists and cache keys created in a function are released, stored, returned or handed "
         "on on every path, error paths included (R-OWN-LOCAL); a local pointer handed to a (computed, must-free) destructor is not used again before it is "
-        "re-assigned (R-USE-AFTER-DESTROY). Necessary for 'allocation failure is survived without crash or leak'. The result of a reallocating call is never stored into the pointer that was passed as the old block, and no field of the owning parameter object is changed ahead of a reallocation that fails (R-REALLOC-COMMIT); GnuTLS's allocators (function-pointer variables) are may-fail constructors too. A function that takes over an object it is handed agrees over all its failure returns on who owns it afterwards (R-CONSUME-AGREE); no library function calls exit/abort (R-NO-EXIT: the out-of-memory arm of the bundled uthash's HASH_ADD does, at six sites, which are known findings).")
+        "re-assigned (R-USE-AFTER-DESTROY). Necessary for 'allocation failure is survived without crash or leak'. The result of a reallocating call is never stored into the pointer that was passed as the old block, and no field of the owning parameter object is changed ahead of a reallocation that fails (R-REALLOC-COMMIT); GnuTLS's allocators (function-pointer variables) are may-fail constructors too. A function that takes over an object it is handed agrees over all its failure returns on who owns it afterwards (R-CONSUME-AGREE); no library function calls exit/abort (R-NO-EXIT: the out-of-memory arm of the bundled uthash's HASH_ADD does, at six sites, which are known findings). A record field handed to a may-delete-and-return helper is assigned again on every path after the call (hand-back); scratch buffers are released on every path (R-OWN-RAW).")
 
 
 def c12(run):
@@ -110,7 +110,7 @@ def c12(run):
         "Reference discipline of sessions decided on every path: temporary references are released in the same function (R-REF-TMP); objects "
         "holding a session reference (computed: queue nodes, subscriptions, async entries) release it before they are freed or cleared "
         "(R-REF-HOLD); a server session is never freed without SERVER_SESSION_DEL and NEW is raised once (R-SESS-EVT); function-local owners "
-        "of strings/binaries/optlists/cache keys are disposed of on every path (R-OWN-LOCAL). Necessary for 'live while referenced, everything released'. After a holder's session reference was released the field is overwritten or the holder freed raw on every path (R-REF-HOLD stale); a session made in a function is freed there only after it was added to a session table (R-SESS-HASHED). A function that takes over an object it is handed agrees over all its failure returns on who owns the object afterwards (R-CONSUME-AGREE).")
+        "of strings/binaries/optlists/cache keys are disposed of on every path (R-OWN-LOCAL). Necessary for 'live while referenced, everything released'. After a holder's session reference was released the field is overwritten or the holder freed raw on every path (R-REF-HOLD stale); a session made in a function is freed there only after it was added to a session table (R-SESS-HASHED). A function that takes over an object it is handed agrees over all its failure returns on who owns the object afterwards (R-CONSUME-AGREE). Scratch buffers (raw allocations the function itself frees) are released on every path (R-OWN-RAW); a session found by the hash look-up is returned only after last_rx_tx was refreshed (idle accounting).")
 
 
 CODEC_UNITS = ('coap_pdu.c', 'coap_option.c')
@@ -142,7 +142,7 @@ def c01(run):
         "Writer/reader table agreement decided statically: the thresholds, arm offsets and nibble splits of every option/TCP-length/token-length "
         "encoder and decoder equal the RFC 7252/8323/8974 tables and each other, the decoder's option-number bound as folded by the compiler equals the "
         "builder's (R-CODEC-TAB); no store passes through a narrowing explicit cast that can lose bits (R-WIDTH); the builder never uses a buffer "
-        "pointer across a reallocation and moves payload pointer and size together (R-FIXUP). Necessary conditions of the round trip. Every ordering comparison against the extended-token bias macros cuts the application token lengths exactly at 13 / 269 (R-CODEC-TAB 7, by enumeration over all token lengths).")
+        "pointer across a reallocation and moves payload pointer and size together (R-FIXUP). Necessary conditions of the round trip. Every ordering comparison against the extended-token bias macros cuts the application token lengths exactly at 13 / 269 (R-CODEC-TAB 7, by enumeration over all token lengths). The largest token the library accepts is the RFC 8974 maximum as the compiler folded it (8); a stored payload marker is followed by payload of known non-zero length (9); an editor advances used_size only after coap_opt_encode() succeeded (R-FIXUP).")
 
 
 def c03(run):
@@ -166,7 +166,7 @@ def c03(run):
         "16-bit delta / running number with wrap-guard or range-guard discharge, R-WIDTH); decoder tables agree with the encoder's and the RFCs "
         "(R-CODEC-TAB); every reject condition of the frozen table (nibble 15, TKL 15, token longer than message, marker without payload, "
         "non-empty Empty, option-number overflow, runt) exists and every path through its rejecting arm returns 0, and coap_dispatch is reached only "
-        "after successful parser calls (R-PARSE-GATE). The accept flag a decoding function collects over several checks is never raised again once it is 0 (R-PARSE-GATE verdict); token-length thresholds cut at 13 / 269 (R-CODEC-TAB 7).")
+        "after successful parser calls (R-PARSE-GATE). The accept flag a decoding function collects over several checks is never raised again once it is 0 (R-PARSE-GATE verdict); token-length thresholds cut at 13 / 269 (R-CODEC-TAB 7). A stored payload marker is followed by payload of known non-zero length (R-CODEC-TAB 9).")
 
 
 def c04(run):
@@ -190,7 +190,7 @@ def c04(run):
     return run.finish(
         "In-place editors (coap_update_token, coap_remove_option, coap_insert_option, coap_update_option and the codec units): every adjustment of "
         "used_size is matched by the same adjustment of a non-NULL payload pointer and equals the memmove distance, no pointer into the buffer is used "
-        "after a call that may reallocate it (R-FIXUP), and no length is stored through a narrowing explicit cast that can truncate it (R-WIDTH). Token-length thresholds are applied so that they cut the application token lengths at 13 / 269 (R-CODEC-TAB 7).")
+        "after a call that may reallocate it (R-FIXUP), and no length is stored through a narrowing explicit cast that can truncate it (R-WIDTH). Token-length thresholds are applied so that they cut the application token lengths at 13 / 269 (R-CODEC-TAB 7). An editor advances used_size only after coap_opt_encode() succeeded (R-FIXUP, bytes before bookkeeping).")
 
 
 def c05(run):
@@ -210,7 +210,7 @@ def c05(run):
         "Stream readers (TCP three-state reader, WebSocket frame and handshake readers): every transfer of n bytes to buffer+counter is followed by "
         "an advance of that counter by the same n or a reset, on every path (R-STREAM-ADV); a length declared by the peer reaches an allocation/copy/"
         "read size only after the non-exceeding arm of a comparison with a maximum, the exceeding arm reaches a closing call, and a full handshake "
-        "line buffer is rejected (R-STREAM-CAP). Necessary for 'same messages however the stream is cut' and 'over-long closes the session'. The receive limit, once our own maximum is set, is computed without any session field the peer can set (R-STREAM-CAP own limit; peer-settable fields computed from the assignments of decoded option values).")
+        "line buffer is rejected (R-STREAM-CAP). Necessary for 'same messages however the stream is cut' and 'over-long closes the session'. The receive limit, once our own maximum is set, is computed without any session field the peer can set (R-STREAM-CAP own limit; peer-settable fields computed from the assignments of decoded option values). A position is never SET to the size of the piece just stored unless it is known 0, and the local that is compared as needed length with a progress counter is not increased after that comparison let the function carry on (R-STREAM-ADV).")
 
 
 def c16(run):
@@ -234,7 +234,7 @@ def c16(run):
         "coap_host_is_unix_domain) is proven inside the delimited bytes by a cursor/remaining-length analysis, and decode_segment is only called "
         "after a tested check_segment on the same arguments (R-LEN-READ); the unescaped character classes, evaluated for all 256 byte values on "
         "the extracted expression, exclude the separators the reconstruction writes and '%' (R-URI-CLASS, necessary for injectivity); optlist "
-        "constructors are NULL-checked (R-ALLOC-NULL). The measuring and the filling loop of the reconstruction agree for all 256 byte values (R-SIZE-FILL); a port number cannot leave its digit loop through the value guard without being rejected by the range check (R-LEN-READ accumulator guard).")
+        "constructors are NULL-checked (R-ALLOC-NULL). The measuring and the filling loop of the reconstruction agree for all 256 byte values (R-SIZE-FILL); a port number cannot leave its digit loop through the value guard without being rejected by the range check (R-LEN-READ accumulator guard). Equality tests against hex letters come in both cases (R-URI-CLASS hex case).")
 
 
 def c15(run):
@@ -259,7 +259,7 @@ def c15(run):
         "(R-REPLAY-RB); every accepted request passed a successful validation (R-REPLAY-MUST); the sender sequence number is only stepped by +1, "
         "advanced exactly once between its use as partial IV and the successful return, and compared with the persisted watermark such that the "
         "skipping arm implies used+1 <= next_seq while the other arm advances next_seq and hands it to the save callback (R-SSN-ORDER). Seven genuine defects of the current tree are "
-        "listed in known_findings.txt and re-observed on every run. A freshly built Echo challenge is protected with its own Partial IV on every path (R-SSN-ORDER Echo).")
+        "listed in known_findings.txt and re-observed on every run. A freshly built Echo challenge is protected with its own Partial IV on every path (R-SSN-ORDER Echo). Every setting the configuration constructor takes from coap_oscore_conf_t is assigned by the copying (Appendix B.2) constructor (constructors agree).")
 
 
 def c08(run):
@@ -281,7 +281,7 @@ def c08(run):
         "hand (reached through a coap_queue_t* or with one known non-NULL); every increment is reached only on the below-the-limit arm of a "
         "comparison with NSTART, and the two functions that first transmit an unreliable Confirmable count it; conversely a node that "
         "coap_remove_from_queue() hands out and that is then deleted has been un-counted on that path (or was no Confirmable / the count is 0). "
-        "Necessary for the NSTART bound and for held messages going out when earlier exchanges finish. A flush of the delay queue that is controlled by a test of con_active is dominated by the decrement under the same test (h).")
+        "Necessary for the NSTART bound and for held messages going out when earlier exchanges finish. A flush of the delay queue that is controlled by a test of con_active is dominated by the decrement under the same test (h). No test of a coap_mid_t typed value separates id 0 from the other ids (R-MID-ZERO).")
 
 
 def c06(run):
@@ -305,7 +305,7 @@ def c06(run):
         "Send-queue node typestate on every path of every function handling coap_queue_t*: a node has exactly one owner (held / in the send "
         "queue / in a delay queue / deleted), is never deleted while linked in a delay queue, never used after deletion and never lost "
         "(R-OWN-NODE) - so after its single outcome a message cannot be sent again; in coap_retransmit the retransmission is gated by "
-        "retransmit_cnt < max_retransmit with exactly one increment, and a given-up Confirmable is NACKed exactly once before deletion (R-RETRANS). Whoever arms the context's timerfd has recorded the deadline it arms it for (R-TIMER-REC).")
+        "retransmit_cnt < max_retransmit with exactly one increment, and a given-up Confirmable is NACKed exactly once before deletion (R-RETRANS). Whoever arms the context's timerfd has recorded the deadline it arms it for (R-TIMER-REC). No test of a coap_mid_t typed value separates id 0 from the other ids (R-MID-ZERO).")
 
 
 REPLY_FUNCS = ('handle_request', 'coap_dispatch', 'check_token_size', 'hnd_get_wellknown_lkd', 'coap_new_error_response', 'coap_send_ack_lkd',
@@ -338,7 +338,7 @@ def c10(run):
         "coap_send_internal; R-OWN-PDU), and no path of coap_dispatch / handle_request passes two emission points other than the Empty-ACK-then-"
         "response pattern (R-REPLY-ONCE). Suppression table: every per-resource multicast suppression flag is paired with the response class its public "
         "name states, on the arm its polarity (ENA/DIS) demands, and leads to a drop; the flags are distinct bits; the No-Response bitmap is indexed "
-        "with class-1 (R-SUPPRESS-TAB). A token is copied into a reply with the length of the bytes it is copied from (R-PAIR-ARGS, library-wide).")
+        "with class-1 (R-SUPPRESS-TAB). A token is copied into a reply with the length of the bytes it is copied from (R-PAIR-ARGS, library-wide). The unknown-resource handler is selected only after the request path was compared with the well-known URI or the HANDLE_WELLKNOWN_CORE flag found set (resolution order).")
 
 
 def c09(run):
@@ -359,7 +359,7 @@ def c09(run):
         "coap_block.c is reached only with the compared length known to be within (for equality look-ups: equal to) the length of both operands, so a "
         "look-up cannot match a state whose key differs in length or was compared over the wrong length (R-CMP-BOUND). (2) 'the sender's release callback runs exactly once'. For every function taking a release_func parameter, on "
         "every path with release_func not known NULL the callback is called exactly once, handed to a callee with the same obligation, or stored "
-        "into an lg_xmit that is linked into session->lg_xmit or deleted; coap_block_delete_lg_xmit calls it exactly once (R-RELEASE-ONCE). A reassembled request body is handed to the application from a block with the More bit set only on paths that found the record's no_more_seen flag set (R-BODY-COMPLETE; the Q-Block1 arm violates this and is a known finding).")
+        "into an lg_xmit that is linked into session->lg_xmit or deleted; coap_block_delete_lg_xmit calls it exactly once (R-RELEASE-ONCE). A reassembled request body is handed to the application from a block with the More bit set only on paths that found the record's no_more_seen flag set (R-BODY-COMPLETE; the Q-Block1 arm violates this and is a known finding). When a response handler expires a transfer record and hands the response up, the application's token is back in the received PDU (or was compared) on every path (application token clause).")
 
 
 def c20(run):
@@ -378,7 +378,7 @@ def c20(run):
         "of coap_print_link / coap_print_wellknown_lkd happens on a path that holds cursor < end for the current cursor value, and the space handed "
         "down to coap_print_link is end - cursor of the current cursor (R-OUT-BOUND). Filter: every comparison of the query pattern with an attribute value, "
         "a space-separated token of it or a path is bounded by, and an exact match is decided against, the length of the string actually compared "
-        "(R-CMP-BOUND).")
+        "(R-CMP-BOUND). The copy decision for an attribute string is taken from the release flag of that string (R-ATTR-FLAGS).")
 
 
 def c19(run):
@@ -398,7 +398,7 @@ def c19(run):
         "gnutls_handshake's result and do_gnutls_handshake returns 1 only there; coap_session_connected and record I/O in the back end happen only "
         "after that; coap_send_pdu transmits only with session->state == ESTABLISHED (R-ROUTE). Credential verdict: in the PSK callbacks the result of "
         "the application's identity / hint validation callback is never replaced before it is acted on, and a success return is only reached with it "
-        "known non-NULL (R-PSK-VERDICT). Where the identity / hint callback is known installed a success return is reached only after it was called; a node taken off a delay queue is deleted only after its PDU went to the transport or, being Confirmable, to coap_handle_nack (R-DELAYQ-NACK).")
+        "known non-NULL (R-PSK-VERDICT). Where the identity / hint callback is known installed a success return is reached only after it was called; a node taken off a delay queue is deleted only after its PDU went to the transport or, being Confirmable, to coap_handle_nack (R-DELAYQ-NACK). Every back-end function that acts on session->dtls_event assigned the idle value to it earlier in the same call (stale event).")
 
 
 def c14(run):
@@ -422,7 +422,7 @@ def c14(run):
         "reached only with the result of cose_encrypt0_decrypt known > 0 (R-OSC-SPLIT); (3) the association that carries the request's AAD, "
         "nonce and partial IV to the response is filled, refreshed and read back field-for-field from the COSE object's fields of the same role "
         "(R-OSC-ROLE, roles computed from the two record types); (4) every local flag that steers an RFC 8613 step in the protect / unprotect "
-        "functions can have its non-initial value where it is tested (reaching definitions). The option decoder examines all eight bits of the flag byte (R-OSC-FLAGS).")
+        "functions can have its non-initial value where it is tested (reaching definitions). The option decoder examines all eight bits of the flag byte (R-OSC-FLAGS). The CBOR head writer produces the RFC 8949 form at the boundary values of every form (R-OSC-CBOR).")
 
 
 def c02(run):
@@ -470,7 +470,7 @@ def c02(run):
         "leads to rejection (R-PARSE-GATE); no pointer into a PDU buffer is used after a call that may reallocate it, library-wide (R-FIXUP); every "
         "memcmp/strncmp over a length-delimited string is bounded by that string's own length (R-CMP-BOUND); a persistent element count that bounds a "
         "fixed-size array (block reassembly tracker) only grows behind one common capacity guard (R-COUNT-CAP); a local copy of an owned pointer "
-        "field is not used after a call that is handed the owning object and may free that field (R-STALE-COPY). A function that was given the capacity of the buffer it fills compares against it before every variable-size copy (R-WRITE-CAP, NDEBUG build); the measuring and the filling pass of the two-pass string builders count and store the same number of bytes for every byte value (R-SIZE-FILL); a call that is handed X.length is handed X.s (R-PAIR-ARGS); the receive limit, once our own maximum is set, uses no peer-settable session field (R-STREAM-CAP own limit).")
+        "field is not used after a call that is handed the owning object and may free that field (R-STALE-COPY). A function that was given the capacity of the buffer it fills compares against it before every variable-size copy (R-WRITE-CAP, NDEBUG build); the measuring and the filling pass of the two-pass string builders count and store the same number of bytes for every byte value (R-SIZE-FILL); a call that is handed X.length is handed X.s (R-PAIR-ARGS); the receive limit, once our own maximum is set, uses no peer-settable session field (R-STREAM-CAP own limit). Header fields (code, type) of a PDU parameter are wire-derived for R-RANGE, and the interval engine knows the unsigned range idiom (size_t)v - K1 < K; a stream position is never set to the size of the piece just stored and a needed header length is final when compared with what has arrived (R-STREAM-ADV).")
 
 
 def c07(run):
@@ -491,7 +491,7 @@ def c07(run):
         "handler); exactly one ACK/RST for the received PDU after the handler, the Reset exactly on the FAIL-and-not-ACK arm, with the recorded verdict "
         "agreeing; a non-ACK response cancels the request's retransmission by token before the handler; a response consumed by sending the next Block1 is "
         "acknowledged (R-RESP). Library-wide, a named constant stored into a record field fits the field's type, so the "
-        "COAP_INVALID_MID marker of the duplicate filter cannot wrap onto a legal message id (R-WIDTH c).")
+        "COAP_INVALID_MID marker of the duplicate filter cannot wrap onto a legal message id (R-WIDTH c). An ACK / RST / duplicate retires only the queued request of its own session and message id (R-QUEUE-KEY).")
 
 
 def c11(run):
@@ -510,7 +510,7 @@ def c11(run):
         "notification is made Non-confirmable only below COAP_OBS_MAX_NON consecutive ones (or NON_ALWAYS / the final 4.04) and the counter is reset / "
         "incremented to match the chosen type before the transmission (R-OBS-CON, coap_notify_observers); a Reset that matches a queued message reaches "
         "coap_cancel(), which removes the observer (R-OBS-RST, coap_dispatch); an observer skipped before its notification was handed to the transmit path is marked "
-        "dirty so that the partially-dirty pass visits it again (R-OBS-DIRTY, coap_notify_observers). The subscription found by cache key is deleted by its own token (R-OBS-REPLACE).")
+        "dirty so that the partially-dirty pass visits it again (R-OBS-DIRTY, coap_notify_observers). The subscription found by cache key is deleted by its own token (R-OBS-REPLACE). coap_delete_observer() is given a looked-at subscription's token only with a session known to be that subscription's (R-OBS-RST whose observer).")
 
 
 PROPS = {
